@@ -19,6 +19,17 @@ CHECKS = {
              "Sizes <= 6 sites / <= 40 terms / dense dimension <= 2048.",
         technique="property-based testing (Hypothesis) with dense reference-model oracle and differential/metamorphic swap relation",
     ),
+    "C03": dict(
+        category="exploration",
+        text="Model-based testing over generated operation histories: a program of constructors, arithmetic (add, sub, scale, "
+             "conj, to_complex, copy, operator application and products, conj_trans, contract, MpDm forms), observers and gauge "
+             "moves is executed on the library objects and on a dense numpy model in lock step; every result is compared after "
+             "every step and again after canonicalising / losslessly compressing a copy, together with the sector and the "
+             "validity of the stored bond labels. Exploration with an exact oracle decides each generated history.",
+        design_ref="DESIGN.md §4 C03",
+        note="Trusted: numpy dense algebra; todense()*coeff as the represented object. Sizes: 1-6 sites, dense dimension <= 256.",
+        technique="model-based property testing (Hypothesis-generated instruction programs, dense reference model in lock step)",
+    ),
     "C19": dict(
         category="exploration",
         text="Complete enumeration of the finite space (10 tableaux x rows x 17 rooted trees of order <=5, row sums, "
